@@ -12,7 +12,7 @@ import sys
 
 import numpy as np
 from hypothesis import strategies as st
-from hypothesis.stateful import RuleBasedStateMachine, rule
+from hypothesis.stateful import RuleBasedStateMachine, precondition, rule
 
 from .. import env, sut
 from ..core import Falsified, Outcome
@@ -23,7 +23,7 @@ RULE = (
     "Histories (Hypothesis RuleBasedStateMachine, 25/50 steps) over an alphabet of 18 solve specifications (shapes 6x5, 8x8, 7x9, "
     "9x4; modes below/at/default; single and double precision (one twin pair on a fine grid where the shooting solutions grow by e^11); footprint and dispersion; single/multiple/unsorted levels; analytic; "
     "halo default/0/fractional; two specs differ from another only in the domain resp. the profiles, two more are near twins (8th digit) of other specs; the source array is one object per grid shape, refilled in place before every solve) each solvable in three representations of the same argument values (C / Fortran / transposed-view source, tuples or lists of profile arrays, Python ints, floats, NumPy scalars or persistent NumPy arrays for domain, halo, measurement point, levels, modes and background; no argument may be modified in place), and the operations set_threads(1..8), reset_fft_manager(), write-and-truncate the FFTW wisdom file "
-    "then reset. Model: the first result seen for (spec, threads) - every later result for the same key must be bit-identical; every "
+    "then reset; and (at most twice per history) a solve, the same request with an argument type the compiled kernel may refuse - big-endian heights or extended-precision profiles, a refusal is accepted, a returned result judged like any other - and the first solve again, under the current or another thread setting. Model: the first result seen for (spec, threads) - every later result for the same key must be bit-identical; every "
     "result must agree with the same solve done as the only solve of a fresh spawned single-threaded process (one process per spec, which also repeats its solve after reset_fft_manager() and reports whether the repeat is bit-identical) to 1e-12 of the field maximum (double; "
     "1e-5 for single precision against its double-precision twin). Non-trivial = history with >= 2 thread settings, >= 1 reset and a "
     "repeat of a spec after a different shape was solved; distinct = canonical JSON of the step list."
@@ -128,6 +128,13 @@ def _represent(a, rep):
     def as_int_if_integral(v):
         return int(v) if v is not None and float(v).is_integer() else v
 
+    if rep == 3:
+        # a height grid as it comes out of a big-endian binary file: the same values; the compiled kernel may refuse it
+        a["z"] = a["z"].astype(">f8")
+        return a
+    if rep == 4:
+        a["profiles"] = tuple(np.asarray(p, dtype=np.longdouble) for p in a["profiles"])  # extended-precision profiles
+        return a
     if rep == 1:
         a["q"] = np.asfortranarray(a["q"])
         a["domain"] = tuple(as_int_if_integral(v) for v in a["domain"])
@@ -238,9 +245,22 @@ def warmup():
 _PROCESS_OPS = []  # every operation applied in this process, across histories: hidden state may outlive a history
 
 
+def _forget_plans():
+    """Every history starts without FFTW's in-process planning knowledge (pyfftw.forget_wisdom): with estimated plans this
+    changes nothing; if plans ever came to be chosen by measurement, each history would be a fresh draw of that choice
+    instead of the whole process living with the first one."""
+    try:
+        import pyfftw
+
+        pyfftw.forget_wisdom()
+    except Exception:
+        pass
+
+
 class History:
     def __init__(self):
         env.reset_globals()
+        _forget_plans()
         _PROCESS_OPS.append(["newhistory"])
         self.start = len(_PROCESS_OPS)
         self.first = {}
@@ -268,6 +288,7 @@ class History:
         kind = op[0]
         if kind == "newhistory":
             env.reset_globals()
+            _forget_plans()
             self.threads = 1
             return []
         if kind == "threads":
@@ -306,6 +327,11 @@ class History:
                     v[n][...] = o
             return [str(e)]
         except Exception as e:
+            if rep >= 3:
+                # an argument type the solver refuses loudly: no result to judge - but the refusal must leave no trace in
+                # what later solves return (they are compared with their first occurrence as before)
+                self.refused = getattr(self, "refused", 0) + 1
+                return []
             return [f"solve(spec {k}) raised {type(e).__name__}: {e} after history {self._pretty()}"]
         self.nsolves += 1
         sh = SHAPE_OF[k]
@@ -358,7 +384,8 @@ class History:
         out.label(f"thread-settings={min(len(self.thread_settings), 4)}{'+' if len(self.thread_settings) >= 4 else ''}",
                   "with-reset" if self.resets else "no-reset", "wisdom-truncated" if self.wisdom_cuts else "wisdom-untouched",
                   "repeat-after-other-shape" if self.repeat_after_other else "no-such-repeat",
-                  "other-representations" if getattr(self, "reps", 0) else "canonical-representation-only")
+                  "other-representations" if getattr(self, "reps", 0) else "canonical-representation-only",
+                  "refused-call-in-history" if getattr(self, "refused", 0) else "no-refused-call")
         return out
 
 
@@ -368,6 +395,7 @@ def machine(tier, stats, last_fail):
             super().__init__()
             self.h = History()
             self.recorded = False
+            self.odd = 0
 
         def _do(self, op):
             fails = self.h.apply(op)
@@ -388,6 +416,21 @@ def machine(tier, stats, last_fail):
         def solve_other_representation(self, k, rep):
             self._do(["solve", k, rep])
 
+        @precondition(lambda self: self.odd < 2)
+        @rule(k=st.sampled_from([0, 4, 6, 16]), rep=st.sampled_from([3, 4]), n=st.sampled_from([1, 1, 4]))
+        def solve_refused_representation(self, k, rep, n):
+            # a solve, then the same request with an argument type the compiled kernel may refuse (big-endian heights,
+            # extended-precision profiles) under some thread setting, then the first solve again
+            self.odd += 1
+            t = self.h.threads
+            self._do(["solve", k])
+            self._do(["threads", n])
+            self._do(["solve", k])
+            self._do(["solve", k, rep])
+            self._do(["solve", k])
+            self._do(["threads", t])
+            self._do(["solve", k])
+
         @rule(k=st.integers(0, NSPEC - 1))
         def solve_twice(self, k):
             self._do(["solve", k])
@@ -397,7 +440,7 @@ def machine(tier, stats, last_fail):
         def set_threads(self, n):
             self._do(["threads", n])
 
-        @rule(k=st.sampled_from([16, 17, 16, 4, 6, 0]), n=st.sampled_from([8, 7, 8, 4]))
+        @rule(k=st.sampled_from([16, 17, 16, 22, 4, 6, 0, 22, 16]), n=st.sampled_from([8, 7, 8, 4, 2, 8]))
         def switch_threads_and_repeat(self, k, n):
             # the same solve before, between and after a change of the thread setting, without a reset in between:
             # whatever the FFT layer keeps from the previous setting must not leak into the next solve
